@@ -21,9 +21,17 @@ CNAME = dict(bool='_Bool', char='char', schar='signed char', uchar='unsigned cha
              llong='long long', ullong='unsigned long long', float='float', double='double', ldouble='long double')
 KSIZE = dict(bool=1, char=1, schar=1, uchar=1, short=2, ushort=2, int=4, uint=4, long=8, ulong=8, llong=8, ullong=8,
              float=4, double=8, ldouble=16)
-ENUM_KINDS = ['int', 'uint', 'long', 'ulong']
-ENUM_BODY = dict(int='{ %s_a = -1, %s_b = 7 }', uint='{ %s_a = 0, %s_b = 0x80000000u }',
-                 long='{ %s_a = -1, %s_b = 0x100000000L }', ulong='{ %s_a = 0, %s_b = 0x8000000000000000UL }')
+# enum shapes: name -> (C body, least enumerator, greatest enumerator); ocaml/driver_c08.ml reads the text form
+# e<lo>:<hi>.  gcc: unsigned int / unsigned long when no enumerator is negative, else int / long.
+ENUM_KINDS = ['int', 'uint', 'long', 'ulong', 'pos', 'one', 'neg8', 'imin', 'umax', 'imax', 'lneg', 'lpos']
+ENUM_DEF = dict(int=('{ %s_a = -1, %s_b = 7 }', -1, 7), uint=('{ %s_a = 0, %s_b = 0x80000000u }', 0, 0x80000000),
+                long=('{ %s_a = -1, %s_b = 0x100000000L }', -1, 0x100000000),
+                ulong=('{ %s_a = 0, %s_b = 0x8000000000000000UL }', 0, 0x8000000000000000),
+                pos=('{ %s_a, %s_b, %s_c, %s_d }', 0, 3), one=('{ %s_a }', 0, 0),
+                neg8=('{ %s_a = -128, %s_b = 127 }', -128, 127), imin=('{ %s_a = -2147483647 - 1, %s_b = 0 }', -2147483648, 0),
+                umax=('{ %s_a = 0xffffffffu }', 0, 0xffffffff), imax=('{ %s_a = 0x7fffffff }', 0, 0x7fffffff),
+                lneg=('{ %s_a = -2147483649L, %s_b = 1 }', -2147483649, 1), lpos=('{ %s_a = 1, %s_b = 0x7fffffffffffffffL }', 0, 0x7fffffffffffffff))
+ENUM_SIZE = {k: (4 if (-2**31 <= v[1] and v[2] < 2**31) or (0 <= v[1] and v[2] < 2**32) else 8) for k, v in ENUM_DEF.items()}
 
 
 # ------------------------------------------------------------------ text form
@@ -35,7 +43,7 @@ def ty_text(t):
     if k == 'p':
         return 'p'
     if k == 'e':
-        return 'e' + t[1]
+        return 'e' + t[1]     # a kind name of ENUM_DEF (the driver's text form is e<lo>:<hi>, see model_text)
     if k == 'a':
         return 'a%d %s' % (t[1], ty_text(t[2]))
     if k == 'x':
@@ -150,6 +158,44 @@ def features(t):
     return fs
 
 
+def shape_features(t):
+    """shapes the audit asked about, for the measured distribution of classified/passed aggregates"""
+    fs = set()
+    for x in walk_types(t):
+        if x[0] == 'a':
+            if is_agg(x[2]):
+                fs.add('array-of-aggregates')
+            if x[2][0] == 'a':
+                fs.add('array-multi-dim')
+            if x[1] == 1:
+                fs.add('array-of-1')
+            if x[2] in (('b', 'float'), ('b', 'double')):
+                fs.add('array-of-fp')
+        elif x[0] == 'u':
+            ks = set()
+            for m in x[1]:
+                if m[0] == 'n':
+                    ks.add('fp' if m[1] in (('b', 'float'), ('b', 'double')) else 'arr' if m[1][0] == 'a' else 'agg' if is_agg(m[1]) else 'int')
+                elif m[0] == 'o':
+                    ks.add('anon-' + m[1][0])
+                else:
+                    ks.add('bf')
+            if 'fp' in ks and ks & {'int', 'bf'}:
+                fs.add('union-fp-and-int')
+            if 'arr' in ks:
+                fs.add('union-with-array')
+            if 'anon-u' in ks:
+                fs.add('union-nested-anon-union')
+            if 'bf' in ks:
+                fs.add('union-with-bitfield')
+    if is_agg(t):
+        if len(t[1]) == 1:
+            fs.add('single-member')
+        if all(m[0] in 'fg' for m in t[1]):
+            fs.add('bit-fields-only')
+    return fs
+
+
 # ------------------------------------------------------------------ generator
 
 class Gen:
@@ -183,7 +229,7 @@ class Gen:
         r = self.r
         if t == ('b', 'bool'):
             return 0 if allow0 and r.random() < 0.3 else 1
-        bits = 8 * KSIZE[t[1]]
+        bits = 8 * (ENUM_SIZE[t[1]] if t[0] == 'e' else KSIZE[t[1]])
         k = r.random()
         if allow0 and k < 0.25:
             return 0
@@ -247,7 +293,7 @@ def est_size(t):
     if k == 'p':
         return 8
     if k == 'e':
-        return 4 if t[1] in ('int', 'uint') else 8
+        return ENUM_SIZE[t[1]]
     if k == 'a':
         return t[1] * est_size(t[2])
     if k == 'x':
@@ -337,7 +383,8 @@ class Emit:
     def enum(self, k):
         tag = 'E%d_%d' % (self.idx, self.ne)
         self.ne += 1
-        self.defs.append('enum %s %s;' % (tag, ENUM_BODY[k] % (tag, tag)))
+        body = ENUM_DEF[k][0]
+        self.defs.append('enum %s %s;' % (tag, body % ((tag,) * body.count('%s'))))
         return 'enum ' + tag
 
     def base(self, t):
@@ -456,6 +503,25 @@ def mask_code(e, var):
     return out
 
 
+def bf_leaves(t):
+    """(declared type, width) of every named bit-field in the DFS order of Emit.leaves (array elements once)"""
+    out = []
+
+    def of_type(t):
+        if is_agg(t):
+            for m in t[1]:
+                if m[0] == 'n':
+                    of_type(m[1])
+                elif m[0] == 'f':
+                    out.append((m[2], m[1]))
+                elif m[0] == 'o':
+                    of_type(m[1])
+        elif t[0] == 'a':
+            of_type(t[2])
+    of_type(t)
+    return out
+
+
 PRELUDE = r'''
 #include <stdio.h>
 #include <string.h>
@@ -499,6 +565,14 @@ def layout_tu(decls):
                 body.append('  memset (b, 0, sizeof (v%d)); v%d.%s = %s; c08_bits (b, sizeof (v%d));'
                             % (i, i, path, val, i))
         body.append('  printf ("\\n");')
+        # sign of the value read back from every bit-field holding all-ones: s(igned) or u(nsigned)
+        bfs = [(path, mt) for kind, path, mt in e.leaves() if kind == 'b']
+        if bfs:
+            body.append('  printf ("V %d ");' % i)
+            for path, mt in bfs:
+                val = '1' if mt == ('b', 'bool') else '-1'
+                body.append('  v%d.%s = %s; printf ("%%c", v%d.%s < 0 ? \'s\' : \'u\');' % (i, path, val, i, path))
+            body.append('  printf ("\\n");')
         body.append('}')
         out += body
         calls.append('  probe%d ();' % i)
@@ -548,13 +622,13 @@ def shrink_candidates(t):
                 for s in shrink_candidates(mt):
                     yield put(('n', s))
             elif mt[0] in 'ep':
-                yield put(('n', ('b', 'long' if mt[0] == 'p' or mt[1] in ('long', 'ulong') else 'int')))
+                yield put(('n', ('b', 'long' if mt[0] == 'p' or ENUM_SIZE[mt[1]] == 8 else 'int')))
             elif mt[0] == 'b' and mt[1] not in ('char', 'int', 'long', 'short', 'float', 'double', 'ldouble'):
                 yield put(('n', ('b', {1: 'char', 2: 'short', 4: 'int', 8: 'long'}[KSIZE[mt[1]]])))
         elif m[0] in 'fg':
             w, bt = m[1], m[2]
             if bt[0] == 'e' or bt[1] not in ('char', 'int', 'long', 'short'):
-                nb = ('b', {1: 'char', 2: 'short', 4: 'int', 8: 'long'}[KSIZE[bt[1]]])
+                nb = ('b', {1: 'char', 2: 'short', 4: 'int', 8: 'long'}[ENUM_SIZE[bt[1]] if bt[0] == 'e' else KSIZE[bt[1]]])
                 if not (bt == ('b', 'bool')):
                     yield put((m[0], w, nb))
             if w > 1:
@@ -618,9 +692,44 @@ def spy_tu(decls):
 PRE_ARGS = [(0, 0), (5, 0), (6, 0), (0, 7), (0, 8), (4, 6), (5, 7), (4, 0), (3, 7), (7, 0), (8, 8), (6, 9)]
 
 
+# mixed signatures: (result returned through the hidden pointer?, scalar parameters before the aggregate):
+# l long, i int, c char, p pointer, f float, d double, x long double.  Indices 9 and 11 leave an odd number of
+# stack words before the aggregate, as PRE_ARGS[9] and PRE_ARGS[11] do (see odd_stack_prefix in checks/c08.py).
+MIX_SIGS = [(1, ''), (1, 'lllll'), (1, 'llll'), (0, 'cfpix'), (1, 'dddddddd'), (0, 'xlx'), (1, 'lllldddddd'),
+            (0, 'fffffffc'), (1, 'lllllx'), (0, 'iiiiiip'), (1, 'pppppdddddddd'), (1, 'llllll')]
+MIX_CTYPE = dict(l='long', i='int', c='char', p='void *', f='float', d='double', x='long double')
+BIG = 'struct c08_big { unsigned long h; long pad[3]; };'
+
+
+def mix_stack_words(j):
+    """8-byte stack words in front of the aggregate of mixed signature j"""
+    big, kinds = MIX_SIGS[j % len(MIX_SIGS)]
+    ni, nf, words = big, 0, 0
+    for k in kinds:
+        if k in 'licp':
+            if ni < 6:
+                ni += 1
+            else:
+                words += 1
+        elif k in 'fd':
+            if nf < 8:
+                nf += 1
+            else:
+                words += 1
+        else:
+            words = (words + 1) // 2 * 2 + 2
+    return words
+
+
+def mix_params(j, tn):
+    big, kinds = MIX_SIGS[j % len(MIX_SIGS)]
+    ps = ['%s q%d' % (MIX_CTYPE[k], n) for n, k in enumerate(kinds)] + ['%s a' % tn, 'struct c08_tl tl', 'struct c08_td td']
+    return big, kinds, ps
+
+
 def sig_tu(decls):
     """c2m side: function definitions whose MIR signatures (c2m -S) show the classification"""
-    out = ['struct c08_tl { long x; };', 'struct c08_td { double x; };']
+    out = ['struct c08_tl { long x; };', 'struct c08_td { double x; };', BIG]
     for i, t in decls:
         e = Emit(i, t)
         out += e.defs
@@ -632,6 +741,11 @@ def sig_tu(decls):
             ps = ['long l%d' % k for k in range(nl)] + ['double d%d' % k for k in range(nd)] + [
                 '%s a' % tn, 'struct c08_tl tl', 'struct c08_td td']
             out.append('void arg%d_%d (%s) { }' % (i, j, ', '.join(ps)))
+        big, kinds, ps = mix_params(i, tn)
+        if big:
+            out.append('struct c08_big mix%d (%s) { struct c08_big r = {0}; return r; }' % (i, ', '.join(ps)))
+        else:
+            out.append('void mix%d (%s) { }' % (i, ', '.join(ps)))
     return '\n'.join(out) + '\n'
 
 
@@ -672,6 +786,7 @@ PASS_PRELUDE = r'''
 #include <stdarg.h>
 struct c08_tl { long x; };
 struct c08_td { double x; };
+struct c08_big { unsigned long h; long pad[3]; };
 static void c08_pat (void *p, unsigned long n, unsigned k) {
   unsigned char *b = p;
   for (unsigned long i = 0; i < n; i++) b[i] = (unsigned char) (1 + (k * 37 + i * 11) % 250);
@@ -721,8 +836,22 @@ def pass_common(decls):
             '%s a' % tn, 'struct c08_tl tl', 'struct c08_td td', 'long post']
         args = ['%dL' % (100 + k) for k in range(nl)] + ['%d.5' % (200 + k) for k in range(nd)]
         extra = ' + '.join(['l%d' % k for k in range(nl)] + ['(unsigned long) (d%d * 2)' % k for k in range(nd)] + ['0'])
+        big, kinds, mps = mix_params(i, tn)
+        margs, mterms = [], []
+        for n, k in enumerate(kinds):
+            if k in 'lic':
+                margs.append('%d' % (n + 3 if k == 'c' else 100 + n))
+                mterms.append('(unsigned long) q%d * %d' % (n, n + 2))
+            elif k == 'p':
+                margs.append('(void *) %dL' % (300 + n))
+                mterms.append('(unsigned long) q%d * %d' % (n, n + 2))
+            else:
+                margs.append('%d.25%s' % (200 + n, {'f': 'f', 'd': '', 'x': 'L'}[k]))
+                mterms.append('(unsigned long) (q%d * 4) * %d' % (n, n + 2))
         info.append(dict(i=i, tn=tn, params=', '.join(params), pre_args=args, extra=extra,
-                         ptypes=', '.join(['long'] * nl + ['double'] * nd + [tn, 'struct c08_tl', 'struct c08_td', 'long'])))
+                         ptypes=', '.join(['long'] * nl + ['double'] * nd + [tn, 'struct c08_tl', 'struct c08_td', 'long']),
+                         mbig=big, mparams=', '.join(mps), margs=margs, mextra=' + '.join(mterms + ['0']),
+                         mptypes=', '.join([MIX_CTYPE[k] for k in kinds] + [tn, 'struct c08_tl', 'struct c08_td'])))
     return '\n'.join(out) + '\n', info
 
 
@@ -733,7 +862,8 @@ def pass_tus(decls):
     """returns (gcc library source, c2m main source).  Output lines of the c2m program:
     'P <i> <dir> ok|BAD' with dir: a (c2m caller -> gcc callee, argument), r (gcc callee -> c2m caller, return
     value), A (gcc caller -> c2m callee, argument), R (c2m callee -> gcc caller, return value),
-    v (c2m caller -> gcc variadic callee, va_arg), V (gcc caller -> c2m variadic callee)"""
+    v (c2m caller -> gcc variadic callee, va_arg), V (gcc caller -> c2m variadic callee),
+    m (c2m caller -> gcc callee, mixed signature MIX_SIGS[i % 12]), M (gcc caller -> c2m callee, mixed signature)"""
     common, info = pass_common(decls)
     lib = [common]
     main = ['#include <stdio.h>', common]
@@ -753,6 +883,18 @@ def pass_tus(decls):
         lib.append('unsigned long g_vtake%d %s' % (i, vtake))
         lib.append('unsigned long g_call_vtake%d (unsigned long (*cb) (int, ...), unsigned k) { %s v; fill%d (&v, k); return cb (2, v, 55L); }'
                    % (i, tn, i))
+        # mixed scalar kinds before the aggregate, result possibly through the hidden pointer (which takes %rdi)
+        mrt = 'struct c08_big' if d['mbig'] else 'unsigned long'
+        mexpr = 'sum%d (&a) * 3 + (unsigned long) tl.x * 5 + (unsigned long) (td.x * 2) * 7 + (%s)' % (i, d['mextra'])
+        mbody = ('{ struct c08_big r = { %s, { 1, 2, 3 } }; return r; }' % mexpr) if d['mbig'] else '{ return %s; }' % mexpr
+        mcall = ', '.join(d['margs'] + ['v', 'tl', 'td'])
+        hsel = '.h' if d['mbig'] else ''
+        lib.append('%s g_mtake%d (%s) %s' % (mrt, i, d['mparams'], mbody))
+        lib.append('unsigned long g_call_mtake%d (%s (*cb) (%s), unsigned k) { %s v; struct c08_tl tl = {31}; '
+                   'struct c08_td td = {41.5}; fill%d (&v, k); return cb (%s)%s; }' % (i, mrt, d['mptypes'], tn, i, mcall, hsel))
+        main.append('extern %s g_mtake%d (%s);' % (mrt, i, d['mparams']))
+        main.append('extern unsigned long g_call_mtake%d (%s (*cb) (%s), unsigned k);' % (i, mrt, d['mptypes']))
+        main.append('%s c_mtake%d (%s) %s' % (mrt, i, d['mparams'], mbody))
         main.append('extern unsigned long g_vtake%d (int n, ...);' % i)
         main.append('extern unsigned long g_call_vtake%d (unsigned long (*cb) (int, ...), unsigned k);' % i)
         main.append('unsigned long c_vtake%d %s' % (i, vtake))
@@ -775,6 +917,10 @@ def pass_tus(decls):
                     % (i, i, i, i))
         main.append('  fill%d (&v, k + 5); e = c_vtake%d (2, v, 55L); r = g_call_vtake%d (c_vtake%d, k + 5); printf ("P %d V %%s\\n", r == e ? "ok" : "BAD");'
                     % (i, i, i, i, i))
+        main.append('  fill%d (&v, k + 6); e = c_mtake%d (%s)%s; r = g_mtake%d (%s)%s; printf ("P %d m %%s\\n", r == e ? "ok" : "BAD");'
+                    % (i, i, mcall, hsel, i, mcall, hsel, i))
+        main.append('  fill%d (&v, k + 7); e = c_mtake%d (%s)%s; r = g_call_mtake%d (c_mtake%d, k + 7); printf ("P %d M %%s\\n", r == e ? "ok" : "BAD");'
+                    % (i, i, mcall, hsel, i, i, i))
         main.append('}')
         body.append('  pass%d ();' % i)
     main.append('int main (void) {')
